@@ -8,6 +8,7 @@ from props import svccommon as C
 def run(ck, pid, timeout_mix, n_quick, n_thorough, title_rule):
     ck.rule = title_rule
     ck.check_obligations()
+    ck.lock_facts_obligation()      # Shutdown takes the service mutex: it must never wait behind a running handler
     bins = C.build(ck, ("h_life",))
     if bins is None:
         return None
